@@ -33,11 +33,14 @@ REQUIRED_THEOREMS = [
     "M1L.error_surfaces_counterexample",
     "M1L.outcome_done",
     "M1L.no_deadlock",
+    "M1L.quiescent_termination",
+    "M1L.quiescent_termination_bounded",
+    "M1L.quiescent_termination_after",
 ]
 EXTRA_LEAN_MODULES = ("JoblibProofs.M1L",)
 EXTRA_LEAN_TARGETS = ("drv_m1l",)
 TRUSTED_EXTRA = [
-    "M1L (lean/JoblibModel/ParallelLock.lean, theorems M1L.*): a second, small-step, multi-threaded model of the same protocol; one atomic step = the code of one thread between two scheduling points (outermost acquire/release of Parallel._lock, a backend call, time.sleep, an unlocked access to _aborting/_exception/_iterating/_original_iterator/n_dispatched_tasks/n_completed_tasks/_jobs/tracker status), any number of callback threads, every interleaving; scope: one call on a fresh object, ordered modes, no timeout; tied to the code by step-log equality of forced real-thread schedules (instrumented lock, controllable backend, descriptor-instrumented shared attributes, no line numbers); assumed: threading.RLock mutual exclusion, atomicity of a single attribute load/store under the GIL; accesses to attributes outside the list and the input iterator's __next__ are atomic with their segment; termination under a fair drain schedule is proved only in part (no_deadlock, callback_progress, no_lost_wakeup, quiet_exit) and otherwise checked",
+    "M1L (lean/JoblibModel/ParallelLock.lean, theorems M1L.*): a second, small-step, multi-threaded model of the same protocol; one atomic step = the code of one thread between two scheduling points (outermost acquire/release of Parallel._lock, a backend call, time.sleep, an unlocked access to _aborting/_exception/_iterating/_original_iterator/n_dispatched_tasks/n_completed_tasks/_jobs/tracker status), any number of callback threads, every interleaving; scope: one call on a fresh object, ordered modes, no timeout; tied to the code by step-log equality of forced real-thread schedules (instrumented lock, controllable backend, descriptor-instrumented shared attributes, no line numbers); assumed: threading.RLock mutual exclusion, atomicity of a single attribute load/store under the GIL; accesses to attributes outside the list and the input iterator's __next__ are atomic with their segment; termination under the drain schedule (completions, then callbacks, then the caller) is PROVED from every reachable state with an explicit bound (quiescent_termination*, measure 1300*W+100*P+100*L+R); termination under other fair schedules is not stated",
     "M1 granularity: completion callbacks are atomic and happen at hook points of the caller (configure, compute_batch_size, sleep, consumer "
     "pauses, inside backend.abort_everything, between two calls and after the last one); interleavings inside a callback or between two bytecodes of the caller are not in the model",
     "modelled, not verified: the backend contract (each submitted batch executed at most once, its callback invoked at most once), "
